@@ -3,10 +3,10 @@ package main
 import (
 	"encoding/json"
 	"fmt"
-	"sort"
 	"go/constant"
 	"go/types"
 	"math"
+	"sort"
 	"strings"
 	"unicode"
 
@@ -1014,7 +1014,6 @@ func (in *Interp) sprint(fr *frame, args []Value, ln bool) Value {
 	return mkStr(out)
 }
 
-
 // findMethod returns the exported method of T with the given name, or nil.
 func (in *Interp) findMethod(T types.Type, name string) *ssa.Function {
 	sel := in.prog.MethodSets.MethodSet(T).Lookup(nil, name)
@@ -1023,7 +1022,6 @@ func (in *Interp) findMethod(T types.Type, name string) *ssa.Function {
 	}
 	return in.prog.MethodValue(sel)
 }
-
 
 // callForFmt calls a String()/Error() method for the purpose of formatting a message; when the
 // method cannot be executed on symbolic data (number formatting) the operand is rendered as a
@@ -1042,7 +1040,6 @@ func (in *Interp) callForFmt(fr *frame, f *ssa.Function, recv Value) (res Value)
 	}()
 	return in.call(fr, f, []Value{recv})
 }
-
 
 // soyToHost converts a concrete engine value of one of the soy data types (or a basic Go value)
 // into plain host Go data.
@@ -1104,7 +1101,6 @@ func (in *Interp) soyToHost(v Value) (interface{}, bool) {
 	}
 	return nil, false
 }
-
 
 func (in *Interp) jsonEncode(fr *frame, v Value) ([]Value, bool) {
 	lit := func(s string) []Value { return append([]Value{}, strBytes(s)...) }
